@@ -407,6 +407,8 @@ func runC01(c *Ctx) {
 	}
 	checkLexSubsetSteps(c, p, "R01.6")
 	checkLexListClosure(c, p, "R01.7")
+	checkLexDependents(c, p, "R01.6")
+	checkLexEmoves(c, p, "R01.8")
 	c.Assumptions = append(c.Assumptions,
 		"NOT decided: that the DFA is the subset construction of the patterns (Closure, Next, Emoves, dependentsClosure, set identity are graph algorithms over unbounded item sets) — regular-definition sharing, epsilon moves and state identity are outside this check",
 		"rune classes are an exact partition (C18)")
